@@ -1072,8 +1072,8 @@ def main():
                'exon (the property only demands rejection of intronic positions); mapping onto a valid position is a violation')
     run.assume('is_protein_coding of on-disk models is owned by the pointer (set by check_protein_coding from the proteome); '
                'it is compared after the same check_protein_coding call on every path, as every CLI flow does')
-    run.assume('orf.end is defined by the implementation as the first 3\'UTR base (else the transcript end) trimmed to the '
-               'frame of orf.start; the expectation is computed from the written UTR/CDS intervals, in both UTR conventions')
+    run.assume('orf.end = transcript index just after the last CDS base (the transcript end when the CDS runs to it), trimmed '
+               'to the frame of orf.start - in both 3\'UTR conventions (record beginning at the stop codon, or after it)')
     global FULL_IDX
     FULL_IDX = run.tier == 'thorough'
     states = trans = traces = 0
